@@ -33,8 +33,11 @@ def rule_xml(r):
 
 
 def svc_xml(v):
-    proto, port = v.split("/")
-    return "<protocol><%s><port>%s</port></%s></protocol>" % (proto, port, proto)
+    # "proto/port" or "proto/port/sp": the latter restricts the source port (an element nested in
+    # <tcp>/<udp> that Netspoc never writes but a device may hold)
+    proto, port, *sp = v.split("/")
+    spx = "<source-port>1024-65535</source-port>" if sp else ""
+    return "<protocol><%s><port>%s</port>%s</%s></protocol>" % (proto, port, spx, proto)
 
 
 def render(cfg, dev):
@@ -102,7 +105,11 @@ def svc_val(elem):
     for proto in ("tcp", "udp"):
         e = p.find(proto)
         if e is not None:
-            return "%s/%s" % (proto, e.findtext("port"))
+            known = {"port", "source-port"}
+            if any(c.tag not in known for c in e) or (e.find("source-port") is not None
+                                                      and e.findtext("source-port") != "1024-65535"):
+                raise Broken("cmdparse: unknown service element: " + elem)
+            return "%s/%s%s" % (proto, e.findtext("port"), "/sp" if e.find("source-port") is not None else "")
     raise Broken("cmdparse: unknown service element: " + elem)
 
 
